@@ -12,6 +12,8 @@ package state
 //@ func State.PlayForMiner
 //@   property C17
 //@   ensures [C05] failed_play_leaves_no_speculative_memory: result != nil ==> memGen == old(memGen) || memClean == memGen
+//@   ensures [C01] a_block_that_was_not_applied_leaves_the_state_alone: result != nil ==> memGen == old(memGen) || memClean == memGen
+//@   ensures [C02] a_block_that_was_not_applied_moves_no_balance: result != nil ==> memGen == old(memGen) || memClean == memGen
 //@   local block *xldgpb.InternalBlock
 //@   at Meta.UpdateNextIrreversibleBlockHeight assert irr_args_current: $0 == block.Height && $1 == t.meta.Meta.IrreversibleBlockHeight && $2 == t.meta.Meta.IrreversibleSlideWindow
 //@   at State.updateLatestBlockid assert irr_update_dominates_pointer: sel(irrUpdFor, ifacePtr($1)) == block.Height && bytesEq($0, block.Blockid)
@@ -26,6 +28,7 @@ package state
 //@ func State.PlayAndRepost
 //@   property C17
 //@   ensures [C05] failed_play_leaves_no_speculative_memory: result != nil ==> memGen == old(memGen) || memClean == memGen
+//@   ensures [C01] a_block_that_was_not_applied_leaves_the_state_alone: result != nil ==> memGen == old(memGen) || memClean == memGen
 //@   ensures [C03] refused_block_revives_no_spent_output: result != nil ==> memGen == old(memGen) || memClean == memGen
 //@   local block *xldgpb.InternalBlock
 //@   at Meta.UpdateNextIrreversibleBlockHeight assert irr_args_current: $0 == block.Height && $1 == t.meta.Meta.IrreversibleBlockHeight && $2 == t.meta.Meta.IrreversibleSlideWindow
